@@ -29,6 +29,11 @@ def gen_trials(ctx):
         {"T": 2, "n": 8, "seed": 14, "fail": 0, "take": None, "strategy": "check_then_act"},
         {"T": 3, "n": 9, "seed": 15, "fail": 1, "take": None, "strategy": "check_then_act"},
         {"T": 2, "n": 6, "seed": 16, "fail": None, "take": 2, "strategy": "check_then_act"},
+        # a failure that is not an Exception (SystemExit-like); an abandoned generator still referenced while the pool is used again
+        {"T": 2, "n": 7, "seed": 17, "fail": 2, "take": None, "strategy": "random", "fail_kind": "base"},
+        {"T": 1, "n": 5, "seed": 18, "fail": 0, "take": None, "strategy": "consumer_first", "fail_kind": "base"},
+        {"T": 1, "n": 9, "seed": 19, "fail": None, "take": 1, "strategy": "random", "reuse": True, "keep": True, "reuse_n": 8},
+        {"T": 2, "n": 12, "seed": 20, "fail": None, "take": 2, "strategy": "consumer_last", "reuse": True, "keep": True, "reuse_n": 12},
     ]
     for i in range(ctx.scale(150, 3000)):
         T = rng.choice([1, 1, 2, 2, 2, 3, 3, 4])
@@ -39,6 +44,10 @@ def gen_trials(ctx):
         take = rng.randint(1, max(1, n)) if kind in ("take", "both") and n > 0 else None
         tr = {"T": T, "n": n, "seed": 1000 + i + ctx.seed * 100000, "fail": fail, "take": take,
               "strategy": rng.choice(STRATS), "reuse": rng.random() < 0.3}
+        if fail is not None and rng.random() < 0.25:
+            tr["fail_kind"] = "base"
+        if tr["reuse"] and take is not None and fail is None and rng.random() < 0.5:
+            tr.update({"keep": True, "reuse_n": rng.choice([3, 2 * T + 4, 2 * T + 7])})
         if rng.random() < 0.15:
             # earlier iterations in the same context must be complete: restarting after an abandoned one
             # is documented to raise AssertionError (tests/io/itertools/test_lazy_pool.py::test_no_restart_while_imap)
@@ -90,7 +99,7 @@ def impl_oracle(t, r):
         if sorted(out) != list(range(n)) or r["exc"]:
             bad.append(("wrong-multiset", f"yielded {sorted(out)} for inputs 0..{n - 1}, exc={r['exc']}"))
     if fail is not None and (take is None or take > n):
-        if r["exc"] != "RuntimeError":
+        if r["exc"] != ("Cancelled" if t.get("fail_kind") == "base" else "RuntimeError"):
             bad.append(("failure-not-raised", f"input {fail} raises but the pass ended with exc={r['exc']} out={out}"))
     if fail is not None and r["exc"] is None and take is not None and len(out) < take:
         bad.append(("failure-swallowed", f"pass ended normally with {out} although input {fail} raises"))
@@ -102,7 +111,7 @@ def impl_oracle(t, r):
     st = r.get("state_after")
     if st and (st[0] > 0 or not st[1] or not st[2]):
         bad.append(("pool-not-reset", f"after the context: active={st[0]} to_process_none={st[1]} results_none={st[2]}"))
-    if t.get("reuse") and r["reuse"] != [0, 1, 2] and r["exc"] != "Deadlock":
+    if t.get("reuse") and r["reuse"] != list(range(t.get("reuse_n", 3))) and r["exc"] != "Deadlock":
         bad.append(("pool-not-reusable", f"second use returned {r['reuse']}"))
     return bad
 
@@ -158,7 +167,7 @@ def run(ctx):
                     replayed += 1
                     total_ops += len(real)
                     mreal = [[k, q, p] for (k, (q, p)) in mtr if k != 2]
-                    want_fin = 2 if r["exc"] == "RuntimeError" else (3 if r.get("abandon_at") is not None and r["exc"] is None else 1)
+                    want_fin = 2 if r["exc"] in ("RuntimeError", "Cancelled") else (3 if r.get("abandon_at") is not None and r["exc"] is None else 1)
                     d = []
                     if mreal != real:
                         j = next((i for i, (a, b) in enumerate(zip(mreal, real)) if a != b), min(len(mreal), len(real)))
